@@ -15,7 +15,7 @@ Names  == {"ok", "empty"}
 Idxs   == {"ok", "empty", "one", "three", "alpha", "mixed", "sign", "space", "unicode", "fullwidth",
            "arabic1", "persian1", "nko1", "latin1", "plus", "dot", "hex", "exp", "newline"}
 Masks  == {"zero", "subset", "all", "foreign", "high", "sign", "cfgerror"}
-Stalls == {"none", "noregister", "noconfigure"}
+Stalls == {"none", "noregister", "noconfigure", "lateregister"}   \* lateregister: after the registration timeout, within the (longer) request timeout
 
 Att(n, i, m, s) == [name |-> n, idx |-> i, mask |-> m, stall |-> s]
 Good == Att("ok", "ok", "subset", "none")
